@@ -140,7 +140,7 @@ def history(ctx, data, sc, nops):
         if k_ not in initial:
             inp = input_object(year, k_)
             if inp is not None and catalog.input_kind(inp) == 'str' and data.draw(st.integers(0, 5)) == 0:
-                answers[k_] = data.draw(st.sampled_from(['100% sure', '50%', '%(x)s', 'a%%b', 'rate: 5 %']))
+                answers[k_] = data.draw(st.sampled_from(['100% sure', '50%', '%(x)s', 'a%%b', 'rate: 5 %', '12 Elm St #4', '#4', 'a ; b', ';x', 'k = v', '[sec]', "O'Neil"]))
                 flags.add('percent_answer')
     last_complete_solution = [None]
     with cli.scratch() as d:
